@@ -323,6 +323,17 @@ def run(run: core.Run) -> int:
 
 def replay(run: core.Run, path: str) -> int:
     data = json.load(open(path))
+    if "compiled" in data["replay"]:
+        from ..impl_sm import run_compiled
+        r = run_compiled([data["replay"]["compiled"]])[0]
+        if "exc" in r:
+            print("VIOLATION-REPLAY", r["exc"])
+            return 1
+        fake = {"deser": r["before"], "eq": True, "eq_rev": True, "ne": False, "reser_same": True, "pretty_same": True, "rewrite": r["after"], "rewrite_deser": r["after"]}
+        v = oracle({"sm": r["before"], "f": r["f"]}, fake)
+        for kind, what in v:
+            print("VIOLATION-REPLAY", kind, what)
+        return 1 if v else 0
     if "history" in data["replay"]:
         from ..impl_sm import run_histories
         r = run_histories([data["replay"]["history"]])[0]
